@@ -347,3 +347,44 @@ def interpolation_frames(env, cfg, ck):
         ck.call_any(P.interp, s, Q2)
         ck.call_any(Q2.interp, s)
         ck.unchanged('SE2:s=%s' % s, snap)
+
+
+@contract('C17', targets=['spatialmath.geom3d.Plucker.PQ', 'spatialmath.geom3d.Plucker.PointDir', 'spatialmath.geom3d.Plucker.contains',
+                          'spatialmath.geom3d.Plucker.closest', 'spatialmath.geom3d.Plucker.intersect_plane', 'spatialmath.geom3d.Plucker.intersect_volume',
+                          'spatialmath.geom3d.Plucker.__rmul__', 'spatialmath.geom3d.Plane.PN', 'spatialmath.geom3d.Plane.P3', 'spatialmath.geom3d.Plane.contains',
+                          'spatialmath.geom3d.Plucker.distance', 'spatialmath.geom3d.Plucker.commonperp', 'spatialmath.geom3d.Plucker.intersects'],
+          domain=False)
+def line_and_plane_frames(env, cfg, ck):
+    """constructors, predicates and intersection methods of lines and planes leave their array arguments and their
+    receivers unchanged (including volume bounds given in descending order, and integer arrays)"""
+    np, sm = env.np, env.sm
+    P, Q, d = np.array([1.0, -2.0, 0.5]), np.array([3.0, 1.0, -1.5]), np.array([0.5, 2.0, -1.0])
+    for name, ctor, args in (('PQ', sm.Plucker.PQ, (P, Q)), ('PointDir', sm.Plucker.PointDir, (P, d))):
+        snap = ck.snapshot(*args)
+        ck.call_any(ctor, *args)
+        ck.unchanged('ctor:' + name, snap)
+    L, L2 = sm.Plucker.PQ(P, Q), sm.Plucker.PointDir(Q, d)
+    n, p0 = np.array([0.0, 0.6, 0.8]), np.array([1.0, 1.0, 1.0])
+    snap = ck.snapshot(p0, n)
+    pl = ck.call_any(sm.Plane.PN, p0, n)
+    ck.unchanged('ctor:Plane.PN', snap)
+    pts = np.array([[0.0, 1.0, 0.0], [0.0, 0.0, 1.0], [1.0, 0.0, 0.0]])
+    snap = ck.snapshot(pts)
+    ck.call_any(sm.Plane.P3, pts)
+    ck.unchanged('ctor:Plane.P3', snap)
+    x = np.array([0.3, 0.1, -2.0])
+    xs = np.array([[0.3, 1.0], [0.1, -2.0], [-2.0, 0.5]])
+    T = sm.SE3(1, 2, 3) * sm.SE3.Rx(0.3)
+    bounds = [np.array([-10.0, 10.0, -10.0, 10.0, -10.0, 10.0]), np.array([-10.0, 10.0, 10.0, -10.0, -10.0, 10.0]),
+              np.array([10, -10, 10, -10, 10, -10])]
+    calls = [('contains', lambda: L.contains(x), (x,)), ('contains-array', lambda: L.contains(xs), (xs,)), ('closest', lambda: L.closest(x), (x,)),
+             ('intersect_plane', lambda: L.intersect_plane(pl), (pl,)), ('distance', lambda: L.distance(L2), (L2,)),
+             ('commonperp', lambda: L.commonperp(L2), (L2,)), ('intersects', lambda: L.intersects(L2), (L2,)),
+             ('parallel', lambda: L | L2, (L2,)), ('xor', lambda: L ^ L2, (L2,)), ('eq', lambda: L == L2, (L2,)),
+             ('transform', lambda: T * L, (T,)), ('point', lambda: L.point(0.7), ()), ('plane-contains', lambda: pl.contains(x), (x, pl))]
+    for k, b in enumerate(bounds):
+        calls.append(('intersect_volume:%d' % k, (lambda b=b: L.intersect_volume(b)), (b,)))
+    for name, f, args in calls:
+        snap = ck.snapshot(L, *args)
+        ck.call_any(f)
+        ck.unchanged('call:' + name, snap)
